@@ -471,12 +471,17 @@ def rational_case(cid, qs, feats):
 
 
 # fixed algebraic lists: (field, [element specs])  -- element spec = list of (coef, exps...) terms
+KNOWN_RELATIONS = {}   # tag of a fixed list -> relation vectors outside the enumeration box (confirmed exactly by the check)
+
+
 def _fixed_algebraic():
     out = []
 
-    def add(fname, elems, tag):
+    def add(fname, elems, tag, relations=None):
         F = FIELDS[fname]
         out.append((fname, [_el(F, *e) for e in elems], tag))
+        if relations:
+            KNOWN_RELATIONS[tag] = relations
     add("Q2", [[(1, 1)], [(2,)]], "sqrt2,2")
     add("Q2", [[(1, 1)], [(2, 1)]], "sqrt2,sqrt8")
     add("Q2", [[(1, 1)], [(4,)], [(8,)]], "sqrt2,4,8")
@@ -520,6 +525,12 @@ def _fixed_algebraic():
     add("Q3", [[(2,), (1, 1)], [(2,), (-1, 1)]], "2+-sqrt3")
     add("Q3", [[(1,), (1, 1)], [(2,), (1, 1)], [(2,)]], "1+sqrt3,2+sqrt3,2")
     add("Q7", [[(8,), (3, 1)], [(8,), (-3, 1)]], "8+-3sqrt7")
+    # an irrational base next to a rational one that is far from an algebraic integer (huge denominator): the generating relation
+    # has a long exponent vector, and the height of the list is dominated by the fraction
+    add("Q2", [[(1, 1)], [(Fraction(1, 2 ** 100),)]], "height:sqrt2,2^-100", relations=[[200, 1]])
+    add("Q3", [[(Fraction(1, 3 ** 70),)], [(1, 1)]], "height:3^-70,sqrt3", relations=[[1, 140]])
+    add("QI", [[(1,), (1, 1)], [(Fraction(1, 2 ** 60),)]], "height:1+i,2^-60", relations=[[480, 4]])
+    add("Q2", [[(1, 1)], [(2 ** 100,)]], "height:sqrt2,2^100", relations=[[200, -1]])
     return out
 
 
@@ -564,6 +575,37 @@ def gen_atoms(rng, fname, kmax=3):
     return elems, ts, rows
 
 
+def gen_large_power(rng, fname):
+    """an atom next to a LARGE power of it (exponent 14..200, positive or negative, times a torsion element), optionally with an
+    unrelated third atom: the generating relation has a long exponent vector and, for negative powers, the second base is far from an
+    algebraic integer (large leading coefficient of its minimal polynomial) - both ends of the height / norm bounds of the general path"""
+    info = ATOMS[fname]
+    w = info["torsion"][1]
+    na = len(info["atoms"])
+    a = rng.randrange(na)
+    K = rng.choice([14, 20, 40, 56, 100, 200]) * rng.choice([1, -1])
+    t1 = rng.choice([0, 0, 1])
+    t2 = rng.randrange(w)
+    r1 = [0] * na
+    r1[a] = 1
+    r2 = [0] * na
+    r2[a] = K
+    elems = [atom_element(fname, t1, r1), atom_element(fname, t2, r2)]
+    ts, rows = [t1 % w, t2 % w], [r1, r2]
+    if na >= 2 and rng.random() < 0.3:
+        b = rng.choice([x for x in range(na) if x != a])
+        r3 = [0] * na
+        r3[b] = rng.choice([1, 2, -1])
+        elems.append(atom_element(fname, 0, r3))
+        ts.append(0)
+        rows.append(r3)
+    if rng.random() < 0.5:
+        elems[0], elems[1] = elems[1], elems[0]
+        ts[0], ts[1] = ts[1], ts[0]
+        rows[0], rows[1] = rows[1], rows[0]
+    return elems, ts, rows
+
+
 def gen_general(rng, fname, kmax=3):
     """random small elements a + b*g (+ ...) of a field: no planted structure except repetitions/inverses"""
     F = FIELDS[fname]
@@ -593,6 +635,9 @@ def algebraic_case(cid, fname, elems, feats, atoms=None, form="expanded"):
             "bases": [elem_text(F, x) for x in elems], "form": form, "features": sorted(set(feats + ["algebraic", "field:" + fname, f"k={len(elems)}", "form:" + form]))}
     if atoms is not None:
         case["atoms"] = {"t": atoms[0], "rows": atoms[1]}
+    for f in feats:
+        if f.startswith("fixed:") and f[6:] in KNOWN_RELATIONS:
+            case["known_relations"] = KNOWN_RELATIONS[f[6:]]
     return case
 
 
@@ -633,6 +678,17 @@ def generate(seed_fn, tier):
         for j in sorted(pick):
             fname, elems, tag = ALGEBRAIC_FIXED[j]
             alg.append(algebraic_case(f"alg-fixed-{j}", fname, elems, ["fixed:" + tag]))
+        # roots of unity alone (pure torsion: the relation vector is as long as the order) are always part of the workload
+        for j, (fname, elems, tag) in enumerate(ALGEBRAIC_FIXED):
+            if (tag in ("zeta3", "zeta6", "i", "zeta12", "zeta8") or tag.startswith("height:")) and j not in pick:
+                alg.append(algebraic_case(f"alg-fixed-{j}", fname, elems, ["fixed:" + tag]))
+        for j in range(3):
+            cs = seed_fn(2 * 10 ** 6 + j)
+            rng = random.Random(cs)
+            fname = rng.choice(["QI", "Q2", "QW", "Q5", "Q3"])
+            elems, ts, rows = gen_large_power(rng, fname)
+            alg.append(algebraic_case(f"alg-largepow-{cs}", fname, elems, ["atoms", "large-power"], atoms=(ts, rows)))
+        na += len(alg) - 8
         j = 0
         while len(alg) < na:
             cs = seed_fn(10 ** 6 + 1 + j)
@@ -653,7 +709,11 @@ def generate(seed_fn, tier):
             cs = seed_fn(10 ** 6 + 1 + j)
             j += 1
             rng = random.Random(cs)
-            if j % 4 == 3:
+            if j % 10 == 9:
+                fname = rng.choice(["QI", "Q2", "QW", "Q5", "Q3", "QC2"])
+                elems, ts, rows = gen_large_power(rng, fname)
+                alg.append(algebraic_case(f"alg-largepow-{cs}", fname, elems, ["atoms", "large-power"], atoms=(ts, rows)))
+            elif j % 4 == 3:
                 fname = GENERAL_FIELDS[(j // 4) % len(GENERAL_FIELDS)]
                 elems = gen_general(rng, fname, kmax=3)
                 if all(FIELDS[fname].is_rational(x) for x in elems):
